@@ -359,6 +359,11 @@ var vc01ByteAlphabetSmall = []string{
 	"a", "1", "\u00e9", "*", "\\", ".", "-", " ", "\"", "'", "/", "(", ")", "[", "]", "{", ":", "+", "<", "=", "~", "^", "\xff", "\x00",
 }
 
+// smaller still (20 symbols), for length 5 in the thorough tier
+var vc01ByteAlphabetTiny = []string{
+	"a", "1", "\u00e9", "*", "\\", ".", "-", " ", "\"", "/", "(", ")", "[", "]", ":", "+", "<", "~", "\xff", "\x00",
+}
+
 // token vocabulary (joined by single spaces)
 var vc01Tokens = []string{
 	"a", "1", "-1", "1.5", "NaN", `"q r"`, `'s'`, "/re/", "w*", "*", "?", `\(`,
@@ -532,19 +537,28 @@ var vc01Families = []vc01Family{
 	{"numbers-many", func(n int) string { return vc01Rep("-1 ", n) }},
 }
 
-var vc01Sizes = []int{312, 625, 1250, 2500, 5000, 10000}
+var vc01Sizes = []int{39, 78, 156, 312, 625, 1250, 2500, 5000, 10000}
 
 const (
-	vc01EnumHang    = 8 * time.Second       // one short enumerated input must never take this long
-	vc01GrowthFloor = 60 * time.Millisecond // below this a measurement is noise
-	vc01Growth2     = 36.0                  // time(4n)/time(n): 16 is quadratic, 64 is cubic
-	vc01Growth1     = 5.0                   // and time(4n)/time(2n): 4 is quadratic, 8 is cubic
+	vc01EnumHang = 8 * time.Second // one short enumerated input must never take this long
+	vc01Growth2  = 36.0            // time(4n)/time(n): 16 is quadratic, 64 is cubic
+	vc01Growth1  = 5.0             // and time(4n)/time(2n): 4 is quadratic, 8 is cubic
 )
 
 // vc01CPU returns the CPU time consumed by the process so far.
 func vc01CPU() time.Duration {
 	var ru syscall.Rusage
 	if syscall.Getrusage(syscall.RUSAGE_SELF, &ru) != nil {
+		return 0
+	}
+	return time.Duration(ru.Utime.Nano() + ru.Stime.Nano())
+}
+
+// vc01ThreadCPU returns the CPU time consumed by the calling OS thread (Linux RUSAGE_THREAD),
+// or 0 where that is not available; callers then fall back to wall-clock time.
+func vc01ThreadCPU() time.Duration {
+	var ru syscall.Rusage
+	if syscall.Getrusage(1 /* RUSAGE_THREAD */, &ru) != nil {
 		return 0
 	}
 	return time.Duration(ru.Utime.Nano() + ru.Stime.Nano())
@@ -590,9 +604,12 @@ func (l *vc01Ladder) measure(stage, n int, in string, tree *expr.Expression, rep
 		l.mu.Lock()
 		l.callStage, l.callN, l.callSince = stage, n, time.Now()
 		l.mu.Unlock()
-		t0 := time.Now()
+		w0, c0 := time.Now(), vc01ThreadCPU()
 		p, site := vc01Stage(stage, in, cfg.opts, &rr)
-		el := time.Since(t0)
+		el := time.Since(w0)
+		if c1 := vc01ThreadCPU(); c0 > 0 && c1 >= c0 {
+			el = c1 - c0 // CPU time of this (locked) thread: not inflated by other processes
+		}
 		l.mu.Lock()
 		l.callStage = -1
 		l.mu.Unlock()
@@ -613,6 +630,8 @@ func (l *vc01Ladder) measure(stage, n int, in string, tree *expr.Expression, rep
 }
 
 func (l *vc01Ladder) run(budget time.Duration, reps int) {
+	runtime.LockOSThread()
+	defer runtime.UnlockOSThread()
 	defer func() {
 		l.mu.Lock()
 		l.done = true
@@ -663,10 +682,10 @@ func (l *vc01Ladder) run(budget time.Duration, reps int) {
 }
 
 // vc01Growth decides from the measured times whether an operation grows faster than quadratically.
-func vc01Growth(ts []time.Duration) (flag bool, desc string) {
+func vc01Growth(ts []time.Duration, sizes []int, floor time.Duration) (flag bool, desc string) {
 	k := len(ts)
 	if k < 3 {
-		return false, ""
+		return false, fmt.Sprintf("%v at %v tokens", ts, sizes[:k])
 	}
 	last := ts[k-1]
 	if ts[k-3] <= 0 || ts[k-2] <= 0 {
@@ -674,8 +693,8 @@ func vc01Growth(ts []time.Duration) (flag bool, desc string) {
 	}
 	r2 := float64(last) / float64(ts[k-3])
 	r1 := float64(last) / float64(ts[k-2])
-	desc = fmt.Sprintf("%v at %v tokens: time(4n)/time(n)=%.1f (quadratic: 16), time(4n)/time(2n)=%.1f (quadratic: 4)", ts, vc01Sizes[:k], r2, r1)
-	return last >= vc01GrowthFloor && r2 > vc01Growth2 && r1 > vc01Growth1, desc
+	desc = fmt.Sprintf("%v at %v tokens: time(4n)/time(n)=%.1f (quadratic: 16), time(4n)/time(2n)=%.1f (quadratic: 4)", ts, sizes[:k], r2, r1)
+	return last >= floor && r2 > vc01Growth2 && r1 > vc01Growth1, desc
 }
 
 // ---------------------------------------------------------------------------------------------
@@ -713,6 +732,45 @@ func vc01Shrink(in, cat string, budget time.Duration) string {
 	return in
 }
 
+// vc01Returns reports whether all operations come back on this input within d.
+func vc01Returns(in string, d time.Duration) bool {
+	done := make(chan struct{})
+	go func() {
+		defer close(done)
+		vc01Check(in, nil, len(vc01Cfgs))
+	}()
+	select {
+	case <-done:
+		return true
+	case <-time.After(d):
+		return false
+	}
+}
+
+// vc01ShrinkHang drops single characters from a hanging input while it still hangs.  Every
+// successful step leaks one spinning goroutine, hence the small cap on the number of tries.
+func vc01ShrinkHang(in string) string {
+	tries := 0
+	for changed := true; changed; {
+		changed = false
+		for i := 0; i < len(in) && tries < 12; {
+			w := 1
+			for i+w < len(in) && in[i+w]&0xC0 == 0x80 {
+				w++
+			}
+			cand := in[:i] + in[i+w:]
+			tries++
+			if cand != "" && !vc01Returns(cand, 1500*time.Millisecond) {
+				in = cand
+				changed = true
+			} else {
+				i += w
+			}
+		}
+	}
+	return in
+}
+
 // ---------------------------------------------------------------------------------------------
 // entry point
 
@@ -740,8 +798,10 @@ func TestVerifStandin_C01(t *testing.T) {
 
 	// full vocabularies up to length L, reduced vocabularies at length L+1
 	byteLen, tokLen, chunkLen, nRandom := 3, 3, 2, 100000
+	nextBytes := vc01ByteAlphabetSmall
 	if tier == "thorough" {
 		byteLen, tokLen, chunkLen, nRandom = 4, 4, 3, 1500000
+		nextBytes = vc01ByteAlphabetTiny
 	}
 
 	t0 := time.Now()
@@ -864,8 +924,8 @@ func TestVerifStandin_C01(t *testing.T) {
 
 		begin(fmt.Sprintf("byte-strings<=%d-over-%d-symbols", byteLen, len(vc01ByteAlphabet)), 2)
 		vc01Enumerate(vc01ByteAlphabet, "", 1, byteLen, emit)
-		begin(fmt.Sprintf("byte-strings=%d-over-%d-symbols", byteLen+1, len(vc01ByteAlphabetSmall)), 2)
-		vc01Enumerate(vc01ByteAlphabetSmall, "", byteLen+1, byteLen+1, emit)
+		begin(fmt.Sprintf("byte-strings=%d-over-%d-symbols", byteLen+1, len(nextBytes)), 2)
+		vc01Enumerate(nextBytes, "", byteLen+1, byteLen+1, emit)
 
 		begin(fmt.Sprintf("token-sequences<=%d-over-%d-tokens", tokLen, len(vc01Tokens)), 2)
 		vc01Enumerate(vc01Tokens, " ", 1, tokLen, emit)
@@ -936,6 +996,7 @@ func TestVerifStandin_C01(t *testing.T) {
 			for range batches {
 			}
 		}()
+		in = vc01ShrinkHang(in)
 		total.add("hang", in, fmt.Sprintf("[hang] %s : every operation must return, one of them is still running after %v", vc01Abbrev(in), vc01EnumHang), 1)
 	}
 	close(watchDone)
@@ -958,12 +1019,14 @@ func TestVerifStandin_C01(t *testing.T) {
 
 	// ---- phase 2: adversarial long shapes, timing ------------------------------------------
 	phase1Dur, phase1CPU := time.Since(t0), vc01CPU()
+	var floorUsed time.Duration
 	t1 := time.Now()
 	if !hung {
-		budget, abandon, reps := 150*time.Millisecond, 20*time.Second, 1
+		budget, floor, abandon, reps := 60*time.Millisecond, 60*time.Millisecond, 20*time.Second, 1
 		if tier == "thorough" {
-			budget, abandon, reps = 3*time.Second, 90*time.Second, 3
+			budget, floor, abandon, reps = 3*time.Second, 150*time.Millisecond, 90*time.Second, 3
 		}
+		floorUsed = floor
 		ncfg := 2 // long shapes: no default field, default field "f"
 		var ladders []*vc01Ladder
 		for i := range vc01Families {
@@ -976,10 +1039,7 @@ func TestVerifStandin_C01(t *testing.T) {
 			jobs <- l
 		}
 		close(jobs)
-		tw := workers
-		if tier == "thorough" && tw > 2 {
-			tw = workers / 2 // less measurement noise
-		}
+		tw := workers // times are per-thread CPU times, so running the ladders side by side is fine
 		var started sync.Map
 		allDone := make(chan struct{})
 		var twg sync.WaitGroup
@@ -1042,10 +1102,11 @@ func TestVerifStandin_C01(t *testing.T) {
 				if n := vc01Sizes[len(ts)-1]; n > maxTokens[st] {
 					maxTokens[st] = n
 				}
-				flag, desc := vc01Growth(ts)
+				flag, desc := vc01Growth(ts, vc01Sizes, floor)
 				top = append(top, slowest{fmt.Sprintf("%s / %s / %s: %s", l.family.name, vc01StageName[st], vc01Cfgs[l.cfg].name, desc), ts[len(ts)-1]})
 				if flag {
-					// confirm alone (no concurrent load), best of 3
+					// confirm alone (no concurrent load inside this process), best of 5
+					runtime.LockOSThread()
 					k := len(ts)
 					var again []time.Duration
 					for _, n := range vc01Sizes[k-3 : k] {
@@ -1055,14 +1116,15 @@ func TestVerifStandin_C01(t *testing.T) {
 							tree, _ = Parse(in, vc01Cfgs[l.cfg].opts...)
 						}
 						c := &vc01Ladder{family: l.family, cfg: l.cfg, callStage: -1}
-						d, _, _ := c.measure(st, n, in, tree, 3)
+						d, _, _ := c.measure(st, n, in, tree, 5)
 						again = append(again, d)
 					}
-					flag2, desc2 := vc01Growth(again)
+					runtime.UnlockOSThread()
+					flag2, desc2 := vc01Growth(again, vc01Sizes[k-3:k], floor)
 					if flag2 {
 						cat := "superquadratic-" + vc01StageTag[st] + "-" + l.family.name
-						total.add(cat, "shape "+l.family.name, fmt.Sprintf("[%s] %s : running time of %s with %s on shape %s must grow at most quadratically between n and 2n tokens; measured %s; re-measured alone at %v tokens: %s",
-							cat, strconv.Quote(l.family.gen(12)), vc01StageName[st], vc01Cfgs[l.cfg].name, l.family.name, desc, vc01Sizes[k-3:k], desc2), 1)
+						total.add(cat, "shape "+l.family.name, fmt.Sprintf("[%s] %s : running time of %s with %s on shape %s must grow at most quadratically between n and 2n tokens; measured %s; re-measured without concurrent load: %s",
+							cat, strconv.Quote(l.family.gen(12)), vc01StageName[st], vc01Cfgs[l.cfg].name, l.family.name, desc, desc2), 1)
 					}
 				}
 			}
@@ -1109,13 +1171,6 @@ func TestVerifStandin_C01(t *testing.T) {
 		rep.ByCategory[c] = total.count[c]
 		rep.FailCount += total.count[c]
 	}
-	for _, c := range cats {
-		for _, f := range total.best[c] {
-			if len(rep.Failures) < 25 {
-				rep.Failures = append(rep.Failures, f.msg)
-			}
-		}
-	}
 	if len(samples) > 12 {
 		step := len(samples) / 12
 		var s2 []string
@@ -1125,16 +1180,25 @@ func TestVerifStandin_C01(t *testing.T) {
 		samples = s2
 	}
 	rep.Samples = samples
-	rep.Bound = fmt.Sprintf("every input x default-field options {none, \"f\"} (and a hostile name with quote, space and wildcard on the chunk, template, random and long-shape... see domains) x {Parse, ToPostgres, ToParameterizedPostgres, String, %%#v, json.Marshal}; inputs: "+
+	// at most 3 messages per category and 25 in total; every category gets its first message
+	// before any category gets a second one
+	for round := 0; round < 3; round++ {
+		for _, c := range cats {
+			if fs := total.best[c]; round < len(fs) && len(rep.Failures) < 25 {
+				rep.Failures = append(rep.Failures, fs[round].msg)
+			}
+		}
+	}
+	rep.Bound = fmt.Sprintf("every input x default-field options {none, \"f\"} (plus a hostile field name with double quote, space and wildcard on the empty, chunk, template and random domains) x {Parse, ToPostgres, ToParameterizedPostgres, String, %%#v, json.Marshal}; inputs: "+
 		"all byte strings of <=%d symbols over a %d-symbol alphabet covering every token-start class (ASCII and 2-byte letters and digits, wildcards, escape, every operator symbol, both quotes, slash, dot, minus, space, NUL, three invalid UTF-8 bytes, a non-token character) and all of %d symbols over a %d-symbol sub-alphabet; "+
 		"all sequences of <=%d tokens over %d token kinds and all of %d tokens over %d kinds; all sequences of <=%d chunks (whole clauses and connectors) over %d chunks and all of %d over %d; clause templates over %d values (ranges, lists, comparisons, fuzzy, boost, field position); "+
 		"%d seeded random byte strings (<=24 bytes: raw bytes, printable ASCII, class alphabet) and %d random token/chunk sequences (5..14 items); %d adversarial shape families (deep nesting, long operator chains, operator-only, unbalanced brackets, long tokens) at %v tokens with timing. "+
 		"distinct_nontrivial = inputs for which Parse returned a tree under at least one option, so that all six operations ran (enumerated strings are pairwise distinct within a domain; cross-domain overlap is below 0.1%%)",
-		byteLen, len(vc01ByteAlphabet), byteLen+1, len(vc01ByteAlphabetSmall), tokLen, len(vc01Tokens), tokLen+1, len(vc01TokensSmall), chunkLen, len(vc01Chunks), chunkLen+1, len(vc01ChunksSmall), len(vc01Values), nRandom, nRandom, len(vc01Families), vc01Sizes)
+		byteLen, len(vc01ByteAlphabet), byteLen+1, len(nextBytes), tokLen, len(vc01Tokens), tokLen+1, len(vc01TokensSmall), chunkLen, len(vc01Chunks), chunkLen+1, len(vc01ChunksSmall), len(vc01Values), nRandom, nRandom, len(vc01Families), vc01Sizes)
 	rep.Notes = append(rep.Notes,
 		fmt.Sprintf("json.Marshal returned an error (a normal return, not a failure) for %d input/option pairs (NaN/Inf values, nesting deeper than encoding/json allows)", jsonErrs),
 		fmt.Sprintf("%d inputs contain \"%%!\" themselves; the marker check does not apply to them", skipped),
-		"growth rule: an operation is measured at 312,625,...,10000 tokens while one call stays within the per-call budget; flagged when, at the three largest sizes n,2n,4n measured, time(4n) >= 60ms, time(4n)/time(n) > 36 and time(4n)/time(2n) > 5, and a second measurement without concurrent load confirms; absolute cap per call 1s + 60s*(n/10^4)^2",
+		fmt.Sprintf("growth rule (floor %v): an operation is measured at 39,78,...,5000,10000 tokens while one call stays within the per-call budget; flagged when, at the three largest sizes n,2n,4n measured, time(4n) >= floor, time(4n)/time(n) > 36 and time(4n)/time(2n) > 5, and a second measurement without concurrent load confirms; absolute cap per call 1s + 60s*(n/10^4)^2; times are CPU times of the measuring thread (wall-clock where unavailable)", floorUsed),
 		fmt.Sprintf("short inputs: wall %v cpu %v; long shapes: wall %v cpu %v (%d workers)", phase1Dur.Round(time.Millisecond), phase1CPU.Round(time.Millisecond), phase2Dur.Round(time.Millisecond), phase2CPU.Round(time.Millisecond), workers),
 	)
 	vc01WriteReport(rep)
